@@ -184,6 +184,22 @@ def reused_object():
             s.run(n_total=120, progress=False, save_every=1)
             d = str(s._core.config.output_dir)
             cps[seed] = {int(re.match(r".*_(\d+)\.state$", f).group(1)): os.path.join(d, f) for f in os.listdir(d) if re.match(r".*_(\d+)\.state$", f)}
+        # a history of exactly one batch (checkpoint 1 loaded into a fresh sampler): what posterior() returns is the caller's - editing it in
+        # place leaves the stored records whole
+        one = mk(9)
+        one.load_state(cps[5][min(cps[5])])
+        if one.state.get_history_length() == 1:
+            out = one.posterior(return_blobs=True, trim_importance_weights=False)
+            for o in out:
+                try:
+                    o[...] = 57.0
+                except (ValueError, TypeError):
+                    pass
+            H1 = one.state
+            r = check_rows("one-batch history after the arrays returned by posterior(trim=False) were edited in place", H1.get_history("u", flat=True), H1.get_history("x", flat=True),
+                           H1.get_history("logl", flat=True), H1.get_history("blobs", flat=True), None, None)
+            if r:
+                return r
         reader = mk(7)
         reader.run(n_total=72, progress=False)
         T = reader.state.get_history_length()
